@@ -110,6 +110,9 @@ def _origin(cfg, rd, node, e, depth, seen):
     if isinstance(e, ast.BoolOp):
         return ("or" if isinstance(e.op, ast.Or) else "and",
                 tuple(_origin(cfg, rd, node, v, depth + 1, seen) for v in e.values))
+    if isinstance(e, ast.BinOp):
+        return ("binop", type(e.op).__name__, _origin(cfg, rd, node, e.left, depth + 1, seen),
+                _origin(cfg, rd, node, e.right, depth + 1, seen))
     if isinstance(e, ast.IfExp):
         return _phi([_origin(cfg, rd, node, e.body, depth + 1, seen),
                      _origin(cfg, rd, node, e.orelse, depth + 1, seen)])
@@ -163,6 +166,8 @@ def show(t):
         return "Exc(%s)" % t[1]
     if k == "aug":
         return "Aug(%s,%s)" % (show(t[2]), show(t[3]))
+    if k == "binop":
+        return "(%s %s %s)" % (show(t[2]), t[1], show(t[3]))
     if k == "other":
         return "<%s>" % t[1]
     return str(t)
@@ -224,7 +229,7 @@ def subterms(t):
         for a in t[1]:
             for x in subterms(a):
                 yield x
-    elif k == "aug":
+    elif k in ("aug", "binop"):
         for x in subterms(t[2]):
             yield x
         for x in subterms(t[3]):
